@@ -240,6 +240,27 @@ pub fn run_isolated<T: Send>(seed: u64, f: impl FnOnce() -> T + Send) -> Result<
     })
 }
 
+/// As `run_isolated`, but the seed is given to the pool's thread itself (thread-local stream), so that
+/// many isolated runs may go on at the same time without sharing the global stream.
+pub fn run_isolated_tl<T: Send>(seed: u64, f: impl FnOnce() -> T + Send) -> Result<T, (String, String)> {
+    let pool = rayon::ThreadPoolBuilder::new()
+        .num_threads(1)
+        .stack_size(64 << 20)
+        .start_handler(move |_| {
+            crate::hashseed::seed_this_thread(seed);
+            install_panic_recorder_thread();
+        })
+        .build()
+        .expect("rayon pool");
+    pool.install(|| {
+        let _ = take_last_panic();
+        match std::panic::catch_unwind(std::panic::AssertUnwindSafe(f)) {
+            Ok(v) => Ok(v),
+            Err(_) => Err(take_last_panic().unwrap_or(("?".into(), "panic without message".into()))),
+        }
+    })
+}
+
 pub fn worker_main(handle: &dyn Fn(&Value) -> Value) {
     install_panic_recorder();
     // private protocol channel = the original stdout; the subject's stdout goes to /dev/null
